@@ -14,12 +14,14 @@ func init() {
 		ID: "C16",
 		Explanation: "Decided: a failing function aborts the whole attempt before anything is committed (inside the batch's Update closure the failing error is returned at once, with the failing index recorded); user functions only ever run inside the panic barrier safelyCall, which turns a panic into a non-nil error; " +
 			"the submitter of the failing function — and only it — is told to retry alone, is removed from the batch before the retry, and never sees the internal trySolo sentinel; every other caller receives the Update result; the result channel can never block the runner (capacity >= 1) and a batch runs at most once (every reference to batch.run goes through its sync.Once). " +
-			"NOT decided: counting sends per caller over loop iterations (path counting over a runtime-sized slice), timer wake-ups.",
+			"Every batch created is armed with the trigger timer before the mutex is released (R5). " +
+			"NOT decided: counting sends per caller over loop iterations (path counting over a runtime-sized slice), that the timer fires.",
 		Run: func(c *Ctx) {
 			c16R1(c, "C16.R1")
 			c16R2(c, "C16.R2")
 			c16R3(c, "C16.R3")
 			c16R4(c, "C16.R4")
+			c16R5(c, "C16.R5")
 		},
 	})
 }
@@ -418,4 +420,76 @@ func dominatesOrBefore(a, b ssa.Instruction) bool {
 		return true
 	}
 	return reach([]ssa.Instruction{a}, nil, nil, nil)[b] && !reach([]ssa.Instruction{b}, nil, nil, nil)[a]
+}
+
+// c16R5: a caller that joined a batch is only ever served by that batch's run; run is started by the timer
+// (or by the size trigger). Every batch Batch creates must therefore be armed: before the mutex is released,
+// time.AfterFunc is called with the trigger method value. (Necessary for "Batch returns": an unarmed,
+// never-filled batch leaves its callers blocked forever.)
+func c16R5(c *Ctx, id string) {
+	c.rule(id, "every-batch-is-armed", 1, func() {
+		bt := c.fn("bbolt.(*DB).Batch")
+		batchF := c.dbField("batch")
+		var creates []ssa.Instruction
+		for _, st := range storesToField([]*ssa.Function{bt}, batchF) {
+			if !isNilConst(st.Val) {
+				creates = append(creates, st.Instr)
+			}
+		}
+		var arms []ssa.Instruction
+		for _, ci := range callsIn(bt, "time.AfterFunc") {
+			ok := false
+			for _, l := range provenance(ci.Common().Args[1], provOpts{}) {
+				if l.Kind == "func" && strings.Contains(l.Name, "(*batch).trigger") {
+					ok = true
+				}
+			}
+			if mc, isMC := ci.Common().Args[1].(*ssa.MakeClosure); isMC {
+				if f, isF := mc.Fn.(*ssa.Function); isF && strings.Contains(shortFn(f), "(*batch).trigger") {
+					ok = true
+				}
+			}
+			if ok {
+				arms = append(arms, ci)
+			}
+		}
+		unlocks := callsIn(bt, "sync.(*Mutex).Unlock")
+		bad := ""
+		if len(creates) == 0 {
+			bad = "no store of a new batch into db.batch found"
+		}
+		for _, st := range creates {
+			isArm := func(in ssa.Instruction) bool {
+				for _, a := range arms {
+					if a == in {
+						return true
+					}
+				}
+				return false
+			}
+			// armed before being published: the timer was created for the very batch value this store publishes
+			armedBefore := false
+			for _, a := range arms {
+				if mc, isMC := a.(ssa.CallInstruction).Common().Args[1].(*ssa.MakeClosure); isMC && len(mc.Bindings) == 1 && dominates(a, st) {
+					if sameValue(mc.Bindings[0], st.(*ssa.Store).Val) {
+						armedBefore = true
+					}
+				}
+			}
+			if armedBefore {
+				continue
+			}
+			r := reach([]ssa.Instruction{st}, nil, isArm, nil)
+			for _, u := range unlocks {
+				if r[u] {
+					bad = "a new batch can be published (mutex released) without time.AfterFunc(…, batch.trigger) having been called: if it never fills up, its callers wait forever"
+				}
+			}
+		}
+		pos := bt.Pos()
+		if len(creates) > 0 {
+			pos = creates[0].Pos()
+		}
+		c.check(id+":(*DB).Batch:new-batch-armed", bt, pos, "every batch created by Batch is armed with time.AfterFunc(MaxBatchDelay, batch.trigger) before batchMu is released", bad == "", bad)
+	})
 }
